@@ -372,10 +372,29 @@ fn case_wenc(out: &mut Out, f: Frame) {
     out.case(&line, &imp, mon);
 }
 
+/// child side of the guarded first pass of `wdec`: both ways of decoding, any abort happens here
+pub fn wdec_child(input: &[u8]) -> String {
+    let chunks = parse_chunks(&String::from_utf8_lossy(input));
+    let whole: Vec<u8> = chunks.concat();
+    let a = do_decode(chunks).map(|i| i.len()).unwrap_or(usize::MAX);
+    let b = do_decode_direct(&whole).map(|i| i.len()).unwrap_or(usize::MAX);
+    format!("{a} {b}")
+}
+
 fn case_wdec(out: &mut Out, chunks: Vec<Vec<u8>>, expect: Option<&[Frame]>, tag: &str) {
     out.stat(&format!("wdec_{tag}"));
     let line = format!("wdec {}", chunks_text(&chunks));
     let whole: Vec<u8> = chunks.concat();
+    // streams that are not known to be well-formed go through the guarded child first (address-space limit): a
+    // decoder that aborts the process on them is an observation, not the end of the harness
+    if expect.is_none() {
+        if crate::childrun::hangs() >= crate::childrun::MAX_HANGS { out.case(&line, "NOT-RUN-AFTER-HANGS", Ok(())); return; }
+        match crate::childrun::guarded("wdecg", chunks_text(&chunks).as_bytes()) {
+            crate::childrun::Outcome::Value(_) | crate::childrun::Outcome::Panic(_) => {}
+            crate::childrun::Outcome::Abort(st) => { out.case(&line, "ABORT", Err(format!("C06: decoding this stream aborted the process ({st}): an allocation unrelated to the size of the input"))); return; }
+            crate::childrun::Outcome::Hang => { out.case(&line, "HANG", Err("C06: decoding this stream never returned".into())); return; }
+        }
+    }
     let res = do_decode(chunks.clone());
     let (imp, mon) = match res {
         Err(p) => ("PANIC".to_string(), Err(format!("FramedRead/MessageCodec panicked: {p}"))),
